@@ -1,14 +1,17 @@
 #!/bin/sh
-# Regenerates harness/go.mod and go.sum from /repo/e2e (the module that already links all ten
-# irismod modules and simapp), pointing every local replace at /repo.  Written only on change.
+# Regenerates harness/go.mod and go.sum from $REPO/e2e (the module that already links all ten
+# irismod modules and simapp), pointing every local replace at $REPO.  Written only on change.
+# REPO defaults to /repo; VERIF_REPO overrides it (used only for scratch worktrees during development).
 set -e
-H=/verif/harness
+V=$(cd "$(dirname "$0")/.." && pwd)
+R=${VERIF_REPO:-/repo}
+H=$V/harness
 tmp=$(mktemp)
-sed -e 's#=> \.\./#=> /repo/#' -e 's#^module mods.irisnet.org/e2e#module verifharness#' /repo/e2e/go.mod \
- | awk '
+sed -e "s#=> \.\./#=> $R/#" -e 's#^module mods.irisnet.org/e2e#module verifharness#' $R/e2e/go.mod \
+ | awk -v R="$R" '
    /^\tmods.irisnet.org\/simapp v/ && !done1 {print; print "\tmods.irisnet.org/e2e v0.0.0"; done1=1; next}
-   /^\tmods.irisnet.org\/simapp => / {print; print "\tmods.irisnet.org/e2e => /repo/e2e"; next}
+   /^\tmods.irisnet.org\/simapp => / {print; print "\tmods.irisnet.org/e2e => " R "/e2e"; next}
    {print}' > "$tmp"
 cmp -s "$tmp" $H/go.mod || cp "$tmp" $H/go.mod
-cmp -s /repo/e2e/go.sum $H/go.sum || cp /repo/e2e/go.sum $H/go.sum
+cmp -s $R/e2e/go.sum $H/go.sum || cp $R/e2e/go.sum $H/go.sum
 rm -f "$tmp"
